@@ -121,6 +121,9 @@ namespace ip {
 		v.handler(v.err, std::move(v.ips));
 		if (empty) return;
 
+		// the handler may have called cancel()
+		if (m_queue.empty()) return;
+
 		m_timer.expires_at(m_queue.front().completion_time);
 		m_timer.async_wait(aux::make_malloc(std::bind(&basic_resolver::on_lookup, this, _1)));
 	}
